@@ -55,6 +55,12 @@ type commitLog struct {
 	// roll in between (the cleaner loop rolls by age at any time) would start
 	// the new segment at the same base offset and hand it out twice.
 	appendMu sync.Mutex
+
+	// cleanerMu is held by the cleaner loop for the duration of one pass
+	// (segment roll, retention, compaction) and by Close and Delete, which
+	// therefore wait for a running pass and cannot be followed by one: a
+	// closed log no longer owns its directory. Taken before appendMu and mu.
+	cleanerMu sync.Mutex
 	Options
 }
 
@@ -541,6 +547,8 @@ func (l *commitLog) close() error {
 // Close closes each log segment file and stops the background goroutine
 // checkpointing the high watermark to disk.
 func (l *commitLog) Close() error {
+	l.cleanerMu.Lock()
+	defer l.cleanerMu.Unlock()
 	l.mu.Lock()
 	defer l.mu.Unlock()
 
@@ -550,6 +558,8 @@ func (l *commitLog) Close() error {
 // Delete closes the log and removes all data associated with it from the
 // filesystem.
 func (l *commitLog) Delete() error {
+	l.cleanerMu.Lock()
+	defer l.cleanerMu.Unlock()
 	l.mu.Lock()
 	defer l.mu.Unlock()
 
@@ -800,26 +810,41 @@ func (l *commitLog) cleanerLoop() {
 			return
 		}
 
-		// Check to see if the active segment should be split. Not while an
-		// append is in flight: it has already taken its base offset from the
-		// active segment.
-		l.appendMu.Lock()
-		split, err := l.checkAndPerformSplit()
-		l.appendMu.Unlock()
-		if err != nil {
-			l.Logger.Errorf("Failed to split log %s: %v", l.Path, err)
-			continue
+		// A tick can win the select above against the closed channel, and
+		// Close can be called while a pass is running. Neither may touch the
+		// directory after Close has returned (a resumed partition reopens it
+		// with a new log), see cleanerMu.
+		l.cleanerMu.Lock()
+		if l.IsClosed() {
+			l.cleanerMu.Unlock()
+			return
 		}
+		l.cleanerPass()
+		l.cleanerMu.Unlock()
+	}
+}
 
-		// If we rolled a new segment, we don't need to run the cleaner since
-		// it already ran.
-		if split {
-			continue
-		}
+// cleanerPass is one iteration of the cleaner loop.
+func (l *commitLog) cleanerPass() {
+	// Check to see if the active segment should be split. Not while an
+	// append is in flight: it has already taken its base offset from the
+	// active segment.
+	l.appendMu.Lock()
+	split, err := l.checkAndPerformSplit()
+	l.appendMu.Unlock()
+	if err != nil {
+		l.Logger.Errorf("Failed to split log %s: %v", l.Path, err)
+		return
+	}
 
-		if err := l.Clean(); err != nil {
-			l.Logger.Errorf("Failed to clean log %s: %v", l.Path, err)
-		}
+	// If we rolled a new segment, we don't need to run the cleaner since
+	// it already ran.
+	if split {
+		return
+	}
+
+	if err := l.Clean(); err != nil {
+		l.Logger.Errorf("Failed to clean log %s: %v", l.Path, err)
 	}
 }
 
